@@ -44,7 +44,9 @@ instance safeHist.dec : (s : State) → (ops : List Op) → Decidable (safeHist 
     unfold safeHist
     exact @instDecidableAnd _ _ _ (safeHist.dec (step s op).1 ops)
 
-structure EmpInv (s : State) : Prop where
+/-- `W`: the cells at which nothing is claimed (written by the user through a reference that aliases the emptiness
+    array); `W = fun _ => False` for the histories without such writes -/
+structure EmpInv (W : Coord → Prop) (s : State) : Prop where
   /-- new grids: the name "empty" is attached to layer 0, which still owns array 0 -/
   named : s.impl = .new → s.attached.lookup "empty" = some 0 ∧ (s.layers 0).data = 0 ∧ 0 < s.nLayers
   /-- new grids: the descriptor `empty` of the cell class holds layer 0 -/
@@ -53,13 +55,15 @@ structure EmpInv (s : State) : Prop where
   keys : (s.agents.map (·.1)).Nodup
   /-- SingleGrid: at most one agent per cell -/
   single : s.impl = .single → (s.agents.map (·.2)).Nodup
-  /-- array 0 is the indicator of emptiness -/
-  view : ∀ c, s.heap 0 c = boolInt (s.isEmptyCell c)
+  /-- array 0 is the indicator of emptiness (outside `W`) -/
+  view : ∀ c, ¬ W c → s.heap 0 c = boolInt (s.isEmptyCell c)
+
+variable {W : Coord → Prop}
 
 theorem isEmptyCell_iff (s : State) (c : Coord) : s.isEmptyCell c = true ↔ ∀ p ∈ s.agents, p.2 ≠ c := by
   simp [State.isEmptyCell]
 
-theorem EmpInv_init (impl : Impl) (dims : List Nat) (cap : Option Nat) : EmpInv (init impl dims cap) := by
+theorem EmpInv_init (impl : Impl) (dims : List Nat) (cap : Option Nat) : EmpInv W (init impl dims cap) := by
   constructor
   · intro h
     simp only [init] at h
@@ -69,10 +73,10 @@ theorem EmpInv_init (impl : Impl) (dims : List Nat) (cap : Option Nat) : EmpInv 
     simp [init, h]
   · simp [init]
   · intro _; simp [init]
-  · intro c; simp [init, State.isEmptyCell, boolInt]
+  · intro c _; simp [init, State.isEmptyCell, boolInt]
 
 /-- the array of a layer other than the built-in one is not array 0 -/
-theorem data_ne_zero {s : State} (hw : WF s) (h : EmpInv s) {l : Nat} (hl : l < s.nLayers)
+theorem data_ne_zero {s : State} (hw : WF s) (h : EmpInv W s) {l : Nat} (hl : l < s.nLayers)
     (h0 : s.impl = .new → l ≠ 0) : (s.layers l).data ≠ 0 := by
   by_cases hi : s.impl = .new
   · obtain ⟨_, hd, hp⟩ := h.named hi
@@ -81,7 +85,7 @@ theorem data_ne_zero {s : State} (hw : WF s) (h : EmpInv s) {l : Nat} (hl : l < 
   · exact hw.legacy_data hi l hl
 
 /-- a name other than "empty" is not attached to layer 0 of a new grid -/
-theorem named_ne_zero {s : State} (hw : WF s) (h : EmpInv s) (hi : s.impl = .new) {n : String} {l : Nat}
+theorem named_ne_zero {s : State} (hw : WF s) (h : EmpInv W s) (hi : s.impl = .new) {n : String} {l : Nat}
     (hn : s.attached.lookup n = some l) (hne : n ≠ "empty") : l ≠ 0 := by
   intro he
   subst he
@@ -90,12 +94,12 @@ theorem named_ne_zero {s : State} (hw : WF s) (h : EmpInv s) (hi : s.impl = .new
   exact hne (h1.symm.trans h2)
 
 /-- transfer along an op that touches neither array 0, nor the agents, nor the built-in layer -/
-theorem EmpInv.transfer {s s' : State} (h : EmpInv s) (e1 : s'.impl = s.impl)
+theorem EmpInv.transfer {s s' : State} (h : EmpInv W s) (e1 : s'.impl = s.impl)
     (e2 : s.impl = .new → s'.attached.lookup "empty" = s.attached.lookup "empty")
     (e3 : s.impl = .new → s'.layers 0 = s.layers 0)
     (e4 : s.nLayers ≤ s'.nLayers)
     (e6 : s'.agents = s.agents) (e7 : s'.heap 0 = s.heap 0)
-    (e8 : s.impl = .new → s'.descr.lookup "empty" = s.descr.lookup "empty" := by intros; rfl) : EmpInv s' := by
+    (e8 : s.impl = .new → s'.descr.lookup "empty" = s.descr.lookup "empty" := by intros; rfl) : EmpInv W s' := by
   constructor
   · intro hi
     rw [e1] at hi
@@ -106,11 +110,11 @@ theorem EmpInv.transfer {s s' : State} (h : EmpInv s) (e1 : s'.impl = s.impl)
     exact (e8 hi).trans (h.dnamed hi)
   · rw [e6]; exact h.keys
   · rw [e1, e6]; exact h.single
-  · intro c
+  · intro c hW
     rw [e7]
     have : s'.isEmptyCell c = s.isEmptyCell c := by simp [State.isEmptyCell, e6]
     rw [this]
-    exact h.view c
+    exact h.view c hW
 
 theorem upd_heap_zero (heap : Nat → Arr) (i : Nat) (x : Arr) (h : i ≠ 0) : upd heap i x 0 = heap 0 := by
   simp [upd, Ne.symm h]
@@ -162,9 +166,9 @@ theorem lookup_of_mem_nodup {l : List (Nat × Coord)} {a : Nat} {c : Coord} (hn 
       exact ih hn.2 ht
 
 /-- entering cell `c`: `agents ++ [(a, c)]`, then `empty[c] = False` -/
-theorem EmpInv_enter {s : State} (h : EmpInv s) (a : Nat) (c : Coord)
+theorem EmpInv_enter {s : State} (h : EmpInv W s) (a : Nat) (c : Coord)
     (hk : a ∉ s.agents.map (·.1)) (hs : s.impl = .single → c ∉ s.agents.map (·.2)) :
-    EmpInv (writeEmpty { s with agents := s.agents ++ [(a, c)] } c 0) := by
+    EmpInv W (writeEmpty { s with agents := s.agents ++ [(a, c)] } c 0) := by
   rw [writeEmpty_eq (s := { s with agents := s.agents ++ [(a, c)] }) (fun hi => ⟨h.dnamed hi, (h.named hi).2.1⟩)]
   constructor
   · exact h.named
@@ -186,18 +190,18 @@ theorem EmpInv_enter {s : State} (h : EmpInv s) (a : Nat) (c : Coord)
     subst hy
     intro he; subst he
     exact hs hi hx
-  · intro c'
+  · intro c' hW
     show upd s.heap 0 ((s.heap 0).set c 0) 0 c' = boolInt (({ s with agents := s.agents ++ [(a, c)] } : State).isEmptyCell c')
     rw [isEmptyCell_append, upd_same]
     unfold Arr.set
     by_cases hc : c' = c
     · subst hc; simp [boolInt]
     · have : c ≠ c' := fun e => hc e.symm
-      simp [hc, this, h.view c']
+      simp [hc, this, h.view c' hW]
 
 /-- leaving cell `c0`: drop the agent, then the implementation's emptiness write for the left cell -/
-theorem EmpInv_leave {s : State} (h : EmpInv s) (a : Nat) (c0 : Coord) (hl : s.agents.lookup a = some c0) :
-    EmpInv (afterLeave { s with agents := s.agents.filter (·.1 ≠ a) } c0) := by
+theorem EmpInv_leave {s : State} (h : EmpInv W s) (a : Nat) (c0 : Coord) (hl : s.agents.lookup a = some c0) :
+    EmpInv W (afterLeave { s with agents := s.agents.filter (·.1 ≠ a) } c0) := by
   have hmem := mem_of_lookup hl
   -- agents at other cells are untouched by the removal
   have hother : ∀ c', c' ≠ c0 →
@@ -223,24 +227,24 @@ theorem EmpInv_leave {s : State} (h : EmpInv s) (a : Nat) (c0 : Coord) (hl : s.a
   have hsingle : s.impl = .single → ((s.agents.filter (·.1 ≠ a)).map (·.2)).Nodup :=
     fun hi => List.Nodup.sublist (List.Sublist.map _ List.filter_sublist) (h.single hi)
   -- the value array 0 must take at c0
-  have hview0 : ∀ c', c' ≠ c0 → s.heap 0 c' =
+  have hview0 : ∀ c', ¬ W c' → c' ≠ c0 → s.heap 0 c' =
       boolInt (({ s with agents := s.agents.filter (·.1 ≠ a) } : State).isEmptyCell c') := by
-    intro c' hc'; rw [hother c' hc']; exact h.view c'
+    intro c' hW hc'; rw [hother c' hc']; exact h.view c' hW
   -- common shape of the result once the written value is known to be right
   have finish : ∀ v : Int,
       v = boolInt (({ s with agents := s.agents.filter (·.1 ≠ a) } : State).isEmptyCell c0) →
-      EmpInv (writeEmpty { s with agents := s.agents.filter (·.1 ≠ a) } c0 v) := by
+      EmpInv W (writeEmpty { s with agents := s.agents.filter (·.1 ≠ a) } c0 v) := by
     intro v hv
     rw [writeEmpty_eq hn]
     refine ⟨h.named, h.dnamed, hkeys, hsingle, ?_⟩
-    intro c'
+    intro c' hW
     show upd s.heap 0 ((s.heap 0).set c0 v) 0 c' = _
     rw [upd_same]
     unfold Arr.set
     by_cases hc : c' = c0
     · subst hc; simp [hv]; rfl
     · simp only [hc, if_false]
-      exact hview0 c' hc
+      exact hview0 c' hW hc
   unfold afterLeave
   split
   · exact finish _ rfl
@@ -276,7 +280,7 @@ theorem EmpInv_leave {s : State} (h : EmpInv s) (a : Nat) (c0 : Coord) (hl : s.a
     · next he =>
       -- MultiGrid, cell still occupied: no write, and array 0 already says "occupied"
       refine ⟨h.named, h.dnamed, hkeys, hsingle, ?_⟩
-      intro c'
+      intro c' hW
       show s.heap 0 c' = _
       by_cases hc : c' = c0
       · subst hc
@@ -284,10 +288,10 @@ theorem EmpInv_leave {s : State} (h : EmpInv s) (a : Nat) (c0 : Coord) (hl : s.a
           rw [Bool.eq_false_iff]
           intro hh
           exact (isEmptyCell_iff s c').mp hh (a, c') hmem rfl
-        rw [h.view c', h1]
+        rw [h.view c' hW, h1]
         simp only [Bool.not_eq_true] at he
         rw [he]
-      · exact hview0 c' hc
+      · exact hview0 c' hW hc
 
 
 /-! ### every safe op preserves the invariant -/
@@ -328,7 +332,7 @@ theorem cell_free_of_others_zero {l : List (Nat × Coord)} {a : Nat} {c : Coord}
   rw [List.length_eq_zero_iff.mp ho] at this
   simp at this
 
-theorem EmpInv_place {s : State} (h : EmpInv s) (a : Nat) (c : Coord) : EmpInv (place s a c).1 := by
+theorem EmpInv_place {s : State} (h : EmpInv W s) (a : Nat) (c : Coord) : EmpInv W (place s a c).1 := by
   unfold place
   split
   · exact h
@@ -351,13 +355,13 @@ theorem EmpInv_place {s : State} (h : EmpInv s) (a : Nat) (c : Coord) : EmpInv (
           omega
         exact cell_free_of_others_zero this hk
 
-theorem EmpInv_remove {s : State} (h : EmpInv s) (a : Nat) : EmpInv (remove s a).1 := by
+theorem EmpInv_remove {s : State} (h : EmpInv W s) (a : Nat) : EmpInv W (remove s a).1 := by
   unfold remove
   split
   · exact h
   · next c0 hl => exact EmpInv_leave h a c0 hl
 
-theorem EmpInv_move {s : State} (h : EmpInv s) (a : Nat) (c : Coord) : EmpInv (move s a c).1 := by
+theorem EmpInv_move {s : State} (h : EmpInv W s) (a : Nat) (c : Coord) : EmpInv W (move s a c).1 := by
   unfold move
   split
   · exact h
@@ -397,8 +401,8 @@ theorem EmpInv_move {s : State} (h : EmpInv s) (a : Nat) (c : Coord) : EmpInv (m
         intro h2 _
         exact this h2
 
-theorem EmpInv_setCells {s : State} (hw : WF s) (h : EmpInv s) (l : Nat) (v : Int)
-    (cond : Option (Int → Bool)) (hs : s.impl = .new → l ≠ 0) : EmpInv (setCells s l v cond).1 := by
+theorem EmpInv_setCells {s : State} (hw : WF s) (h : EmpInv W s) (l : Nat) (v : Int)
+    (cond : Option (Int → Bool)) (hs : s.impl = .new → l ≠ 0) : EmpInv W (setCells s l v cond).1 := by
   unfold setCells
   split
   · exact h
@@ -407,9 +411,9 @@ theorem EmpInv_setCells {s : State} (hw : WF s) (h : EmpInv s) (l : Nat) (v : In
     exact h.transfer rfl (fun _ => rfl) (fun _ => rfl) (Nat.le_refl _) rfl
       (upd_heap_zero _ _ _ (data_ne_zero hw h hlt hs))
 
-theorem EmpInv_modifyCellsT {s : State} (hw : WF s) (h : EmpInv s) (l : Nat) (f : Option (Int → Int))
+theorem EmpInv_modifyCellsT {s : State} (hw : WF s) (h : EmpInv W s) (l : Nat) (f : Option (Int → Int))
     (cond : Option (Int → Bool)) (rd : DType) (hs : s.impl = .new → l ≠ 0) :
-    EmpInv (modifyCellsT s l f cond rd).1 := by
+    EmpInv W (modifyCellsT s l f cond rd).1 := by
   have hnp := hw.next_pos
   unfold modifyCellsT
   split
@@ -423,8 +427,8 @@ theorem EmpInv_modifyCellsT {s : State} (hw : WF s) (h : EmpInv s) (l : Nat) (f 
       intro hi
       exact upd_other _ _ _ _ (fun e => hs hi e.symm)
 
-theorem EmpInv_modifyCell {s : State} (hw : WF s) (h : EmpInv s) (l : Nat) (c : Coord) (f : Option (Int → Int))
-    (hs : s.impl = .new → l ≠ 0) : EmpInv (modifyCell s l c f).1 := by
+theorem EmpInv_modifyCell {s : State} (hw : WF s) (h : EmpInv W s) (l : Nat) (c : Coord) (f : Option (Int → Int))
+    (hs : s.impl = .new → l ≠ 0) : EmpInv W (modifyCell s l c f).1 := by
   unfold modifyCell
   split
   · exact h
@@ -440,7 +444,7 @@ theorem EmpInv_modifyCell {s : State} (hw : WF s) (h : EmpInv s) (l : Nat) (c : 
             (upd_heap_zero _ _ _ (data_ne_zero hw h hlt hs))
 
 /-- registering a descriptor under a name that is not attached leaves the descriptor `empty` alone -/
-theorem descr_empty_setDescr {s : State} (h : EmpInv s) (hi : s.impl = .new) {n : String} (lid : Nat)
+theorem descr_empty_setDescr {s : State} (h : EmpInv W s) (hi : s.impl = .new) {n : String} (lid : Nat)
     (hnone : s.attached.lookup n = none) :
     (if s.impl = .new then setDescr s.descr n lid else s.descr).lookup "empty" = s.descr.lookup "empty" := by
   have hne : "empty" ≠ n := by
@@ -453,8 +457,8 @@ theorem descr_empty_setDescr {s : State} (h : EmpInv s) (hi : s.impl = .new) {n 
   rw [List.lookup_cons, hb]
   exact lookup_filter_ne _ _ _ hne
 
-theorem EmpInv_step {s : State} (hw : WF s) (h : EmpInv s) (op : Op) (hs : op.safeAt s = true) :
-    EmpInv (step s op).1 := by
+theorem EmpInv_step {s : State} (hw : WF s) (h : EmpInv W s) (op : Op) (hs : op.safeAt s = true) :
+    EmpInv W (step s op).1 := by
   have hnp := hw.next_pos
   cases op with
   | create n dt d =>
@@ -565,10 +569,10 @@ theorem EmpInv_step {s : State} (hw : WF s) (h : EmpInv s) (op : Op) (hs : op.sa
   | setCells l w cond =>
     have hl0 : s.impl = .new → l ≠ 0 := fun hi => by simpa [Op.safeAt, Op.safe, hi] using hs
     cases w with
-    | raw v => exact vecGuard_fst (P := EmpInv) _ _ _ _ (EmpInv_setCells hw h l v cond hl0) h
+    | raw v => exact vecGuard_fst (P := EmpInv W) _ _ _ _ (EmpInv_setCells hw h l v cond hl0) h
     | py x =>
       simp only [step]
-      refine vecGuard_fst (P := EmpInv) _ _ _ _ ?_ h
+      refine vecGuard_fst (P := EmpInv W) _ _ _ _ ?_ h
       unfold setCellsV
       split
       · exact h
@@ -595,11 +599,11 @@ theorem EmpInv_step {s : State} (hw : WF s) (h : EmpInv s) (op : Op) (hs : op.sa
               intro hi
               simpa [Op.safeAt, Op.safe, hi] using hs
   | modifyT l f cond rd =>
-    exact vecGuard_fst (P := EmpInv) _ _ _ _
+    exact vecGuard_fst (P := EmpInv W) _ _ _ _
       (EmpInv_modifyCellsT hw h l f cond rd (fun hi => by simpa [Op.safeAt, Op.safe, hi] using hs)) h
   | modifyU l vec op x cond =>
     simp only [step]
-    refine vecGuard_fst (P := EmpInv) _ _ _ _ ?_ h
+    refine vecGuard_fst (P := EmpInv W) _ _ _ _ ?_ h
     unfold modifyU
     split
     · exact h
@@ -608,7 +612,7 @@ theorem EmpInv_step {s : State} (hw : WF s) (h : EmpInv s) (op : Op) (hs : op.sa
       · exact EmpInv_modifyCellsT hw h l _ cond _ (fun hi => by simpa [Op.safeAt, Op.safe, hi] using hs)
   | modifyCells l vec f cond =>
     simp only [step]
-    refine vecGuard_fst (P := EmpInv) _ _ _ _ ?_ h
+    refine vecGuard_fst (P := EmpInv W) _ _ _ _ ?_ h
     unfold modifyCells
     split
     · exact h
@@ -805,13 +809,77 @@ theorem step_impl (s : State) (op : Op) : (step s op).1.impl = s.impl := by
       · rfl
       · split <;> rfl
 
-theorem Inv_run {s : State} (hw : WF s) (h : EmpInv s) (ops : List Op)
-    (hs : safeHist s ops) : EmpInv (run s ops).1 := by
+theorem Inv_run {s : State} (hw : WF s) (h : EmpInv W s) (ops : List Op)
+    (hs : safeHist s ops) : EmpInv W (run s ops).1 := by
   induction ops generalizing s with
   | nil => exact h
   | cons op ops ih =>
     simp only [run]
     exact ih (WF_step hw op) (EmpInv_step hw h op hs.1) hs.2
+
+/-! ### histories in which the user does write through an aliasing reference: wrong at most there -/
+
+theorem EmpInv.mono {W' : Coord → Prop} {s : State} (h : EmpInv W s) (hsub : ∀ c, W c → W' c) : EmpInv W' s :=
+  ⟨h.named, h.dnamed, h.keys, h.single, fun c hc => h.view c (fun hw => hc (hsub c hw))⟩
+
+/-- the cells written through a reference that aliases the emptiness array (array 0), in the course of a history -/
+def aliasWrites : State → List Op → Coord → Prop
+  | _, [], _ => False
+  | s, op :: ops, x =>
+    (match op with
+      | .hset h c _ => (∃ d, s.handles.lookup h = some (0, d)) ∧ x = c
+      | _ => False) ∨ aliasWrites (step s op).1 ops x
+
+/-- one write through a reference, aliasing or not: afterwards nothing is claimed at the written cell if it aliased -/
+theorem EmpInv_hset {s : State} (h : EmpInv W s) (hd : Nat) (c : Coord) (v : Int) :
+    EmpInv (fun x => W x ∨ ((∃ d, s.handles.lookup hd = some (0, d)) ∧ x = c)) (hset s hd c v).1 := by
+  unfold hset
+  split
+  · exact h.mono fun _ hw => Or.inl hw
+  · next a d hlk =>
+    split
+    · exact h.mono fun _ hw => Or.inl hw
+    · by_cases ha : a = 0
+      · subst ha
+        refine ⟨h.named, h.dnamed, h.keys, h.single, ?_⟩
+        intro c' hW
+        show upd s.heap 0 ((s.heap 0).set c v) 0 c' = _
+        rw [upd_same]
+        unfold Arr.set
+        have hne : c' ≠ c := fun e => hW (Or.inr ⟨⟨d, hlk⟩, e⟩)
+        simp only [hne, if_false]
+        exact h.view c' (fun hw => hW (Or.inl hw))
+      · exact (h.transfer (s' := { s with heap := upd s.heap a ((s.heap a).set c v) }) rfl (fun _ => rfl) (fun _ => rfl)
+          (Nat.le_refl _) rfl (upd_heap_zero _ _ _ ha)).mono fun _ hw => Or.inl hw
+
+/-- Over a history whose ops are statically safe (no write to / re-pointing / removal of the built-in layer through the
+    layer or the cell attribute) but which may write through references of any kind: the view is right everywhere except
+    possibly at the cells written through a reference that aliased the emptiness array. -/
+theorem Inv_run_alias {s : State} (hw : WF s) (h : EmpInv W s) (ops : List Op)
+    (hs : ∀ op ∈ ops, op.safe s.impl = true) :
+    EmpInv (fun x => W x ∨ aliasWrites s ops x) (run s ops).1 := by
+  induction ops generalizing s W with
+  | nil => exact h.mono fun _ hw' => Or.inl hw'
+  | cons op ops ih =>
+    simp only [run]
+    have hrest : ∀ op' ∈ ops, op'.safe (step s op).1.impl = true := by
+      intro op' hop'
+      rw [step_impl]
+      exact hs op' (List.mem_cons_of_mem _ hop')
+    have hop := hs op (List.mem_cons_self ..)
+    cases op
+    case hset hd c v =>
+      have h1 := EmpInv_hset h hd c (s.handleWVal hd v)
+      refine (ih (WF_step hw _) h1 hrest).mono ?_
+      rintro x ((hx | hx) | hx)
+      · exact Or.inl hx
+      · exact Or.inr (Or.inl hx)
+      · exact Or.inr (Or.inr hx)
+    all_goals
+      refine (ih (WF_step hw _) (EmpInv_step hw h _ (by exact hop)) hrest).mono ?_
+      rintro x (hx | hx)
+      · exact Or.inl hx
+      · exact Or.inr (Or.inr hx)
 
 /-- a history of statically safe ops without writes through references is safe in every state -/
 theorem safeHist_of_static (s : State) (ops : List Op) (h1 : ∀ op ∈ ops, op.safe s.impl = true)
